@@ -384,6 +384,7 @@ pub fn apply_hw(reg: &mut EventRegister, op: &HwOp) {
         HwKind::Set => reg.set_condition(op.value),
         HwKind::SetBits => reg.set_condition_bits(op.value),
         HwKind::ClearBits => reg.clear_condition_bits(op.value),
+        HwKind::Enable => reg.enable = op.value,
     }
 }
 
